@@ -343,6 +343,7 @@ func (e *Environment) create(name string, val Object) Object {
 }
 
 func (e *Environment) update(name string, found, val Object) Object {
+	val = CopyRegister(val) // store the current value, not the register itself (it'd alias the other variable).
 	if vref, ok := val.(Reference); ok {
 		log.Debugf("Not setting %q to a reference %q", name, vref.Name)
 		val = Value(val)
